@@ -195,5 +195,163 @@ func TestVerifC20(t *testing.T) {
 			}
 		}
 	}
+	c20AnyQC(t, v)
 	v.Close("QC and TC signed by exactly k distinct members verified by a real Authority, n = 1..13, k = 1..n; non-trivial = k at or just below the quorum")
+}
+
+// c20AnyQC (stream "anyqc"): the threshold must also hold on the VerifyAnyQC path.  For n = 4..10 and
+// each scheme, with aggregate QCs enabled, a proposal carries a genuine, verifying AggregateQC whose high
+// QC is QC(block) by q signers; the proposal's BLOCK QC has the same view, hash and signature BYTES as that
+// high QC (QuorumCert.Equals holds: it ignores to whom the signatures are attributed) but claims only k
+// distinct signers: BLS12 = the same point with a k-bit bitfield; ECDSA/EdDSA = k entries labelled 1..k
+// whose bytes concatenate to the same string (the last entry carries the bytes of entries k..q).
+// k = 1..q-1 must be rejected, k = q (the high QC itself) accepted.
+func c20AnyQC(t *testing.T, v *verifOut) {
+	s := v.Stream("anyqc", "thr_mismatches", 2000)
+	for _, scheme := range []string{crypto.NameECDSA, crypto.NameEDDSA, crypto.NameBLS12} {
+		for n := 4; n <= 10; n++ {
+			q := hotstuff.QuorumSize(n)
+			keys := make([]hotstuff.PrivateKey, n+1)
+			cfgs := make([]*core.RuntimeConfig, n+1)
+			bases := make([]crypto.Base, n+1)
+			for i := 1; i <= n; i++ {
+				var k hotstuff.PrivateKey
+				var err error
+				switch scheme {
+				case crypto.NameECDSA:
+					k, err = keygen.GenerateECDSAPrivateKey()
+				case crypto.NameEDDSA:
+					_, k, err = keygen.GenerateED25519Key()
+				default:
+					k, err = crypto.GenerateBLS12PrivateKey()
+				}
+				if err != nil {
+					t.Fatal(err)
+				}
+				keys[i] = k
+				cfgs[i] = core.NewRuntimeConfig(hotstuff.ID(i), k, core.WithAggregateQC())
+				if bases[i], err = crypto.New(cfgs[i], scheme); err != nil {
+					t.Fatal(err)
+				}
+			}
+			block := hotstuff.NewBlock(hotstuff.GetGenesis().Hash(), hotstuff.NewQuorumCert(nil, 0, hotstuff.GetGenesis().Hash()), &clientpb.Batch{}, 1, 1)
+			auths := make([]*Authority, n+1)
+			for i := 1; i <= n; i++ {
+				for j := 1; j <= n; j++ {
+					cfgs[i].AddReplica(&hotstuff.ReplicaInfo{ID: hotstuff.ID(j), PubKey: keys[j].Public(), Metadata: cfgs[j].ConnectionMetadata()})
+				}
+				logger := logging.NewWithDest(io.Discard, "c20")
+				bc := blockchain.New(eventloop.New(logger, 10), logger, c20NullSender{})
+				bc.Store(block)
+				auths[i] = NewAuthority(cfgs[i], bc, bases[i])
+			}
+			// the high QC: QC(block) by replicas 1..q
+			var pcs []hotstuff.PartialCert
+			for i := 1; i <= q; i++ {
+				pc, err := auths[i].CreatePartialCert(block)
+				if err != nil {
+					t.Fatal(err)
+				}
+				pcs = append(pcs, pc)
+			}
+			highQC, err := auths[1].CreateQuorumCert(block, pcs)
+			if err != nil {
+				t.Fatal(err)
+			}
+			// a genuine AggregateQC for view 2: every replica reports highQC and signs its timeout message
+			const aggView = 2
+			var timeouts []hotstuff.TimeoutMsg
+			for i := 1; i <= n; i++ {
+				tm := hotstuff.TimeoutMsg{ID: hotstuff.ID(i), View: aggView, SyncInfo: hotstuff.NewSyncInfoWith(highQC)}
+				if tm.ViewSignature, err = auths[i].Sign(hotstuff.View(aggView).ToBytes()); err != nil {
+					t.Fatal(err)
+				}
+				if tm.MsgSignature, err = auths[i].Sign(tm.ToBytes()); err != nil {
+					t.Fatal(err)
+				}
+				timeouts = append(timeouts, tm)
+			}
+			agg, err := auths[1].CreateAggregateQC(aggView, timeouts)
+			if err != nil {
+				t.Fatal(err)
+			}
+			verifier := auths[n]
+			if h, err := verifier.VerifyAggregateQC(agg); err != nil || !h.Equals(highQC) {
+				v.Oracle(false, "threshold:anyqc:genuine-aggregate-rejected", fmt.Sprintf("%s n=%d: the genuine AggregateQC does not verify or yields another high QC: %v", scheme, n, err),
+					map[string]any{"scheme": scheme, "n": n})
+				continue
+			}
+			// block QC claiming k distinct signers with the bytes of highQC's signature
+			twin := func(k int) (hotstuff.QuorumSignature, bool) {
+				if k == q {
+					return highQC.Signature(), true
+				}
+				switch sg := highQC.Signature().(type) {
+				case *crypto.BLS12AggregateSignature:
+					var bf crypto.Bitfield
+					for i := 1; i <= k; i++ {
+						bf.Add(hotstuff.ID(i))
+					}
+					r, err := crypto.RestoreBLS12AggregateSignature(sg.ToBytes(), bf)
+					return r, err == nil
+				case crypto.Multi[*crypto.ECDSASignature]:
+					m := make([]*crypto.ECDSASignature, 0, k)
+					for i := 0; i < k-1; i++ {
+						m = append(m, crypto.RestoreECDSASignature(sg[i].ToBytes(), hotstuff.ID(i+1)))
+					}
+					var rest []byte
+					for i := k - 1; i < len(sg); i++ {
+						rest = append(rest, sg[i].ToBytes()...)
+					}
+					return crypto.NewMulti(append(m, crypto.RestoreECDSASignature(rest, hotstuff.ID(k)))...), true
+				case crypto.Multi[*crypto.EDDSASignature]:
+					m := make([]*crypto.EDDSASignature, 0, k)
+					for i := 0; i < k-1; i++ {
+						m = append(m, crypto.RestoreEDDSASignature(sg[i].ToBytes(), hotstuff.ID(i+1)))
+					}
+					var rest []byte
+					for i := k - 1; i < len(sg); i++ {
+						rest = append(rest, sg[i].ToBytes()...)
+					}
+					return crypto.NewMulti(append(m, crypto.RestoreEDDSASignature(rest, hotstuff.ID(k)))...), true
+				}
+				return nil, false
+			}
+			for k := 1; k <= q; k++ {
+				sig, ok := twin(k)
+				if !ok {
+					v.Note(fmt.Sprintf("anyqc: no twin with %d claimed signers for %s", k, scheme))
+					continue
+				}
+				bqc := hotstuff.NewQuorumCert(sig, highQC.View(), highQC.BlockHash())
+				claimed := sig.Participants().Len()
+				meta := map[string]any{"scheme": scheme, "n": n, "quorum": q, "claimed_signers": claimed, "equals_high_qc": bqc.Equals(highQC), "call": "VerifyAnyQC"}
+				if !bqc.Equals(highQC) || claimed != k {
+					v.Note(fmt.Sprintf("anyqc: twin construction for %s n=%d k=%d is not Equals to the high QC / claims %d signers; skipped", scheme, n, k, claimed))
+					continue
+				}
+				proposal := &hotstuff.ProposeMsg{ID: 1, Block: hotstuff.NewBlock(block.Hash(), bqc, &clientpb.Batch{}, aggView+1, 1), AggregateQC: &agg}
+				accepted := false
+				func() {
+					defer func() {
+						if r := recover(); r != nil {
+							meta["panic"] = fmt.Sprint(r)
+						}
+					}()
+					accepted = verifier.VerifyAnyQC(proposal) == nil
+				}()
+				meta["accepted"] = accepted
+				v.Seen(fmt.Sprintf("anyqc/%s/%d/%d", scheme, n, k), k >= q-1, meta)
+				switch {
+				case accepted && k < q:
+					v.Oracle(false, "threshold:anyqc:accepted-below-quorum", fmt.Sprintf("%s n=%d: VerifyAnyQC accepted a proposal whose block QC claims %d distinct signers (same bytes as the aggregate's high QC), quorum is %d", scheme, n, k, q), meta)
+				case !accepted && k >= q:
+					v.Oracle(false, "threshold:anyqc:rejected-at-quorum", fmt.Sprintf("%s n=%d: VerifyAnyQC rejected a proposal whose block QC is the aggregate's high QC by %d signers, quorum is %d", scheme, n, k, q), meta)
+				default:
+					v.Oracle(true, "", "", nil)
+				}
+				v.Case(s, fmt.Sprintf("(%s,%s,%s)", gZ(int64(n)), gZ(int64(k)), gBool(accepted)), meta)
+			}
+		}
+	}
 }
